@@ -596,9 +596,9 @@ def stream_of(grp, name):
 
 EXPECTED_BRANCHES = (
     ["inc-jump-rz", "inc-next-level", "inc-rx+1", "inc-ry+1", "inc-rz+1", "max-all-max", "max-mx-min", "max-my-min", "max-mz-min"]
-    + ["amr-depth-%d" % i for i in range(0, 9)] + ["amr-out-of-range", "amr-out-of-range-child"]
+    + ["amr-depth-%d" % i for i in range(0, 9)] + ["amr-block-index-clamped", "amr-child-index-clamped"]
     + ["cart-%s-%s%s" % (a, b, c) for a in ("absorbed", "escaped") for b in ("1cell", "multi") for c in ("", "-periodic")]
-    + ["cart-in-range", "cart-out-of-range", "cart-tau-exactly-zero", "cart-edge-or-corner-crossing", "cart-periodic-wrap",
+    + ["cart-in-range", "cart-top-index-clamped", "cart-tau-exactly-zero", "cart-edge-or-corner-crossing", "cart-periodic-wrap",
        "cart-corrected-last-step"] + ["cart-ngb-boundary-%d" % i for i in range(0, 7)]
     + ["pl-all-blocks", "pl-covered"] + ["pl-level-%d" % i for i in range(0, 5)])
 
@@ -622,7 +622,7 @@ def run(ctx):
         "nearest_is_bruteforce(_partial): the covered-radius bound is a hypothesis (derived in nearest_covered_radius_bound from: every stored point lies in the cell of its bucket, the query lies in its anchor cell); fuel of the model loops not exhausted (checked by the run: an exhausted fuel is printed)",
         "cartesian_path_sum holds for every loop fuel; termination is not claimed (a periodic grid without opacity loops forever in the C++ as well) — generators keep opacities positive on periodic grids",
         "a single cell across a periodic axis of an AMRDensityGrid is its own neighbour: the traversal never wraps the position and spins with ds = 0 (degenerate configuration, reported, not generated)",
-        "positions within one ulp of a top face / exactly on AMR block walls with odd block counts hit genuine index-range defects of the code (KNOWN-FINDING lines); the exact-arithmetic theorems show the indices are in range",
+        "positions within one ulp of a top face / exactly on AMR block walls with odd block counts: the code clamps the indices (fixes 2fae05a, d8603ab) and the models mirror the clamps; amr_locate_total / cartesian_index_robust hold for every numeric type without any assumption on rounding, the exact-arithmetic theorems show the clamps are inactive inside the box",
     ]
     ok = ctx.obligations("CMacVerif.Props.C16", ["drv_c16"])
     h = vlib.build_harness("c16", **harness_kw())
@@ -683,7 +683,9 @@ MANIFEST = dict(
           "bijection and 64-bit block/cell split (amr_key_roundtrip); get_first_key/get_next_key visit every leaf exactly once in Morton "
           "order for EVERY tree of depth <= 10 (hence every tree reachable by refinements) and every block layout <= 1024 per axis "
           "(amr_enumeration, amr_enumeration_grid, induction on the tree); refine (amr_refine); leaf volumes sum to the box "
-          "(amr_volumes_sum); descent by position ends in the unique leaf whose box contains it, all indices in range (amr_contains). "
+          "(amr_volumes_sum); descent by position ends in the unique leaf whose box contains it (amr_contains); for every numeric type "
+          "incl. Float and every position the look-up returns the key of a leaf of the grid (amr_locate_total, clamped indices); "
+          "get_cell_indices returns an existing cell whatever the rounding of the product (cartesian_index_robust). "
           "Bucket search: increase_indices visits every integer offset exactly once, level = max-norm, levels ascending "
           "(shells_exactly_once); set_max_range returns the last block of a cubic grid (max_range_is_last); increase_range stops on the "
           "next block inside the grid and never skips a level (increase_range_next); get_closest_neighbour returns the brute-force "
@@ -701,8 +703,7 @@ MANIFEST = dict(
           "rounding is not modelled. cartesian_segments assumes inverse direction = 1/direction, a non-zero direction and DBL_MAX "
           "above every wall distance (RayOK). Not proved: termination of interact in periodic grids without opacity (genuinely non-terminating); "
           "AMRDensityGrid traversal and Octree searches (oracle only); Voronoi grids (C15 not applicable). max_range_is_last needs "
-          "the cubic grid PointLocations always builds (Lean counterexample for 5x1x3). Genuine defects of /repo exposed and reported "
-          "(keys in /verif/known_findings.txt): AMRGrid/Cartesian locate index out "
-          "of range on block walls / one ulp below a top face; AMRDensityGrid::interact reports photons absorbed in a boundary cell "
-          "as escaped; periodic wrap into a refined AMR neighbour enters the wrong child."),
+          "the cubic grid PointLocations always builds (Lean counterexample for 5x1x3). Four genuine defects of /repo were exposed by "
+          "this check and are fixed (2fae05a, d8603ab, d8e5613, 39f0cc7; known_findings.txt); their reproducers stay in corpus/C16 and "
+          "the oracles stay strict."),
     technique="Lean 4 proofs (induction on trees / traversal / loop fuel, omega, linarith, field_simp) + bit-exact differential correspondence + implementation-level oracles")
